@@ -30,6 +30,7 @@ ASSUMPTIONS = ["model signatures and group sums (vf/model/blssig.py, bls12381.py
                "FastAggregateVerify with keys summing to the identity must return False (IETF KeyValidate on the "
                "aggregate key)"]
 ENGINE = "hypothesis"
+TECHNIQUE = ("property-based testing (Hypothesis): metamorphic perturbations of signer sets judged by an exact acceptance predicate computed by an independent model")
 PERTS = ("none", "permute", "regroup", "drop_sig", "dup_sig", "subst_sig", "drop_signer", "swap_msgs", "swap_keys",
          "extra_msg", "extra_key", "neg_agg", "agg_plus_sig", "agg_plus_torsion", "agg_bitflip", "agg_identity",
          "key_identity", "key_non_subgroup", "key_cancel_pair", "key_malformed", "empty")
